@@ -7,21 +7,24 @@ MANIFEST = {
              "client/inflight.go statement by statement: accepted managed ids lie in [1,N]; an accepted id is carried by no unanswered request; a "
              "request stays registered until its final frame or Close; with N unanswered every send is refused and nothing is lost; explicit reuse "
              "is refused; pool + managed-in-flight is a permutation of 1..N in every open reachable state (mixed histories included); after all "
-             "answers N managed sends succeed with ids covering 1..N. Schedules: a small-step semantics of the code's atomic actions with an "
-             "inductive invariant for managed ids under every interleaving, and a refuted theorem for explicit ids (check-then-act). The model is "
+             "answers N managed sends succeed with ids covering 1..N. Schedules: a small-step semantics of the code's atomic actions (any number "
+             "of senders with managed and explicit ids mixed, the receive loop, closers) with an inductive invariant for EVERY interleaving: no two "
+             "accepted unanswered requests share a stream id (explicit ids included), never more than N of them, the map holds exactly them, "
+             "free / held / registered managed ids are disjoint inside [1,N]. The model is "
              "tied to the compiled handler on every run: exhaustive histories to a depth bound for N<=3 and seeded random long histories through "
              "the verif shim, compared under vm_compute; the property's predicates are also evaluated directly on the implementation."),
     "technique": "Rocq proof (induction over histories, inductive invariant over an LTS) + model/code correspondence on operation histories",
     "design_ref": "3 C09, 8.1",
     "note": ("Residual, named: atomicity of the modelled actions in Go and the schedule quantifier on the REAL code (interleavings are proved on "
              "the LTS, the LTS is tied to the code by reading and by the sequential correspondence; concurrent stress runs are exercised, not proved). "
-             "Known finding F12 (Send leaves a request registered when the outgoing queue is full) is kept as a refuted theorem."),
+             "Known finding F12 (Send leaves a request registered when the outgoing queue is full) is kept as a refuted theorem. "
+             "F10 (explicit-id check-then-act) was repaired by e71cde5; the two-goroutine probe stays in the stress run as a regression guard."),
     "hooks": il.HOOKS,
 }
 
 
 def check(run):
-    broken, findings, results = il.standard(run, "C09", "c09", extra_subs=("stress",) if run.tier == "thorough" else ())
+    broken, findings, results = il.standard(run, "C09", "c09", extra_subs=("stress",))
     run.coverage["rule"] = (
         "histories = lists of operations on one handler built with (N, maxPending): exhaustive over an alphabet of sends (managed, explicit in "
         "and out of [1,N]), deliveries (final / non-final, known / unknown id), consumer read and Close up to the depth in the group name for "
